@@ -14,10 +14,13 @@ package anndbverif
 
 import (
 	"fmt"
+	"runtime/debug"
 	"sync/atomic"
 	"syscall"
 	"time"
 	"unsafe"
+
+	"simrt"
 )
 
 const (
@@ -148,6 +151,44 @@ func newTokSched(n int, seed uint64, policy, p int, estSteps int) *tokSched {
 		}
 	}
 	return s
+}
+
+// runGuarded executes a sequential piece of work on one worker under the token
+// scheduler, so that a self-deadlock of the code under test (a lock taken twice on one
+// path) is an observation - all workers blocked - instead of a hang of the harness. A
+// panic of the work is re-raised in the caller.
+func runGuarded(fn func()) (deadlocked bool) {
+	s := newTokSched(1, 1, 0, 0, 1000)
+	prevY, prevB, prevW, prevMode := simrt.YieldFn, simrt.BlockFn, simrt.WakeFn, simrt.Mode()
+	sched = s
+	simrt.YieldFn, simrt.BlockFn, simrt.WakeFn = schedYield, schedBlock, schedWake
+	simrt.SetMode(simrt.ModeToken)
+	var pv interface{}
+	var stack []byte
+	go func() {
+		schedWorkerStart(0)
+		defer schedWorkerDone(0)
+		defer func() {
+			if r := recover(); r != nil {
+				pv, stack = r, debug.Stack()
+			}
+		}()
+		fn()
+	}()
+	s.run()
+	simrt.SetMode(prevMode)
+	simrt.YieldFn, simrt.BlockFn, simrt.WakeFn = prevY, prevB, prevW
+	if s.deadlock {
+		s.abandon()
+		sched = nil
+		return true
+	}
+	s.close()
+	sched = nil
+	if pv != nil {
+		panic(fmt.Sprintf("%v\n%s", pv, stack))
+	}
+	return false
 }
 
 // describeBlocked: how many workers wait for which lock (for the message of a deadlock).
